@@ -54,6 +54,10 @@ ASSUMPTIONS = [
     "rejection = any exception; a returned value is a violation",
     "inputs: float64 or int64 levels in about [1e-9, 1e11], tz-naive timestamps 1995..2040, distinct string column "
     "names; +inf levels, tz-aware and non-unique column labels are outside the generator",
+    "tearsheet() is compared row by row (Years .. Martin ratio, CAGR over benchmark, Information ratio) with a "
+    "level-series or default (0) risk-free only: a non-zero numeric risk_free is turned by the tearsheet into a "
+    "synthetic series compounding 252 rows a year, and the CAPM rows (alpha, beta, correlation, omega) are not in the "
+    "statement; tearsheet(benchmark=...) is called for one asset only (multi-column frames raise KeyError 'alpha')",
     "tracking_error / information_ratio / tearsheet(benchmark=...) on exactly two daily levels (one return) are "
     "treated per KNOWN_CANDIDATES (see bottom of the module)",
 ]
@@ -66,7 +70,7 @@ SQ = math.sqrt(252.0)
 # excess_returns() squeezes the benchmark's returns; with exactly one return the squeeze yields a scalar and
 # `.reindex` raises AttributeError. While the flag is True that precise outcome (AttributeError, two daily levels,
 # a benchmark given) is counted under `excluded`; any other outcome is still compared with the reference (NaN).
-KNOWN_CANDIDATES = {"tracking-error-two-levels": True}
+KNOWN_CANDIDATES = {"tracking-error-two-levels": False}   # repaired in /repo by 0e50798 ("fix: excess returns ...")
 
 
 # =========================================================================================== REFERENCE
@@ -469,8 +473,9 @@ def run_definitions(case):
     if case.get("tearsheet") and not (rf_obj is not None and rf_arr is None):
         # (a numeric risk-free other than 0 is turned into a synthetic 252-steps-a-year series by the tearsheet)
         check_tearsheet(res, frame, refs, rf_obj if rf_arr is not None else None, bm_obj, ndaily)
-    if case.get("track") and case["frame"] == "series":
-        check_track_record(res, times, arrays[0], refs)
+    if case.get("track"):
+        # TrackRecord.tearsheet() measures the net liquidation values with risk_free = 0 and no benchmark
+        check_track_record(res, times, arrays[0], [ref_metrics(times, arrays[0], qs)])
     return res
 
 
@@ -506,7 +511,10 @@ def compare_tearsheet(res, what, sheet, refs, rows):
 
 def check_tearsheet(res, frame, refs, rf_series, bm_obj, ndaily):
     multi = isinstance(frame, pd.DataFrame) and frame.shape[1] > 1
-    use_bm = bm_obj is not None and not multi      # the CAPM rows of the tearsheet are defined for one asset
+    # The benchmark block of the tearsheet holds rows the statement does not list (CAPM alpha/beta, correlation),
+    # defined for one asset and undefined for a single return: with two daily levels the listed benchmark
+    # metrics are checked through their own methods instead.
+    use_bm = bm_obj is not None and not multi and ndaily > 2
     kwargs = {}
     if rf_series is not None:
         kwargs["risk_free"] = rf_series
@@ -538,7 +546,6 @@ def check_track_record(res, times, levels, refs):
         reb.context_post = reb.context_pre
         track._checkpoint(reb)
     sheet = track.tearsheet()
-    # the tearsheet of a track record uses risk_free = 0 and no benchmark: refs must have been built that way
     compare_tearsheet(res, "TrackRecord.tearsheet", sheet, refs[:1], TEARSHEET_ROWS)
 
 
@@ -865,9 +872,7 @@ def base_cases(draw, tier="quick", need_rf=False, need_bm=False, allow_float_rf=
 def definition_cases(draw, tier="quick"):
     case = draw(base_cases(tier))
     case["tearsheet"] = draw(st.sampled_from([True, False, False]))
-    # TrackRecord.tearsheet() uses risk_free = 0 and no benchmark
-    case["track"] = (case["frame"] == "series" and case["rf"] is None and case["bm"] is None
-                     and draw(st.booleans()))
+    case["track"] = draw(st.sampled_from([True, False, False, False]))
     return case
 
 
@@ -918,3 +923,34 @@ PARTS = [
     Part("scale", strategy=lambda tier: scale_cases(tier), run=run_scale, quick=700, thorough=16000),
     Part("reject", strategy=lambda tier: reject_cases(tier), run=run_reject, quick=700, thorough=16000),
 ]
+
+# ------------------------------------------------------------------------------------------------------------
+# Sensitivity record (scratch copy of /repo/tradingenv, one mutant at a time,
+# `VERIF_PKG_ROOT=<scratch> ./check C16 --tier quick --no-evidence`, seed 1; all: exit 1 + VIOLATION line)
+#
+#   DESIGN "must catch"
+#   volatility with std(ddof=0) ....................................... caught by definitions (20 s)
+#   BDAYS = 365 (252/365 mix-up) ...................................... caught by definitions
+#   nr_years = calendar days / 252 .................................... caught by definitions
+#   drawdown against the global max (level / level.max() - 1) ......... caught by definitions
+#   expected shortfall with `<` instead of `<=` ....................... caught by definitions
+#   validate() returns early for DataFrames ........................... caught by reject
+#   level(): first instead of last intraday observation ............... caught by definitions
+#   own, subtle
+#   downside volatility over returns <= 0 ............................. caught by definitions
+#   VaR with interpolation="lower" .................................... caught by definitions
+#   validate(): values < 0 instead of <= 0 (a zero level accepted) .... caught by reject
+#   validate(): duplicate-timestamp test removed ...................... caught by reject
+#   martin_risk without the first drawdown (iloc[1:]) ................. caught by definitions
+#   nr_calendar_days + 1 (inclusive count) ............................ caught by definitions
+#   _parse_rate: overall_return() instead of cagr() of the series ..... caught by definitions
+#   cagr from the raw first observation instead of the first daily level (intraday) ... caught by definitions
+#   tracking_error with std(ddof=0) ................................... caught by definitions
+#   sortino_ratio divided by volatility ............................... caught by definitions and scale
+#   run with --part scale only: drawdown = (level - cummax) / (cummax + 1e-9) ......... caught by scale
+#   run with --part scale only: returns computed as diff / (previous + 1e-10) in volatility ... caught by scale
+#
+# Candidate findings on the unchanged tree (see KNOWN_CANDIDATES / FINDING_PROBES):
+#   * tracking_error / excess_returns / information_ratio / tearsheet(benchmark=...) raise AttributeError when
+#     the data collapse to exactly two daily levels (`other.simple_returns().squeeze()` turns the single
+#     return into a scalar); volatility() of the same data returns NaN.
